@@ -517,6 +517,24 @@ func checkC05Rest(c *core.Ctx) {
 				}
 				scan(sl.High, 0)
 				if beyond == "" {
+					// a non-constant high bound that the code admits by comparing with cap(f), not len(f)
+					if _, isK := core.ConstInt(sl.High); !isK {
+						for _, dc := range core.DomConds(sl.Block()) {
+							bo, ok := dc.V.(*ssa.BinOp)
+							if !ok {
+								continue
+							}
+							for _, side := range []ssa.Value{bo.X, bo.Y} {
+								if cl, ok := core.StripConv(side).(*ssa.Call); ok {
+									if nm, cc := core.BuiltinCall(cl); nm == "cap" && fieldOf(cc.Args[0]) == fp {
+										beyond = "a bound admitted by a test against cap"
+									}
+								}
+							}
+						}
+					}
+				}
+				if beyond == "" {
 					return
 				}
 				nBad++
